@@ -1,6 +1,7 @@
 mod adapters;
 mod baton;
 mod exec;
+mod flushrace;
 mod narrate;
 mod oracle;
 mod prog;
@@ -76,6 +77,9 @@ fn worker(args: &[String]) -> i32 {
     let known: Vec<String> = arg(args, "--known").map(|k| k.split("||").filter(|s| !s.is_empty()).map(|s| s.to_string()).collect()).unwrap_or_default();
     if variant == "teardown" {
         return teardown_worker(args, seed, wid, cases, out, &known);
+    }
+    if variant == "flushrace" {
+        return flushrace_worker(seed, wid, cases, out, &known);
     }
     let spec = match props::spec(prop, variant, cancelable, thorough) {
         Some(s) => s,
@@ -178,6 +182,61 @@ fn worker(args: &[String]) -> i32 {
     0
 }
 
+fn flushrace_worker(seed: u64, wid: u64, cases: u32, out: &str, known: &[String]) -> i32 {
+    quiet_panics();
+    flushrace::install();
+    let strategy = flushrace::strategy();
+    let cfg = Config { cases, failure_persistence: None, max_shrink_iters: 60, ..Config::default() };
+    let mut runner = TestRunner::new_with_rng(cfg, TestRng::from_seed(RngAlgorithm::ChaCha, &seed_bytes(seed, wid, "flushrace")));
+    let start = std::time::Instant::now();
+    let st = std::cell::RefCell::new((0u64, HashSet::<u64>::new(), Vec::<serde_json::Value>::new(), false, 0u64));
+    let sig = "flush-overlap:not-delivered-by-flush".to_string();
+    let res = runner.run(&strategy, |c| {
+        let r = flushrace::run(&c);
+        let mut s = st.borrow_mut();
+        let fails = match r {
+            Ok(f) => f,
+            Err(_) => {
+                s.4 += 1;
+                vec![]
+            }
+        };
+        if !s.3 {
+            s.0 += 1;
+            use std::hash::{Hash, Hasher};
+            let mut h = std::collections::hash_map::DefaultHasher::new();
+            format!("{:?}", c).hash(&mut h);
+            if s.1.insert(h.finish()) && s.2.len() < 3 {
+                s.2.push(serde_json::to_value(&c).unwrap());
+            }
+        }
+        if fails.is_empty() || known.contains(&sig) {
+            Ok(())
+        } else {
+            s.3 = true;
+            Err(TestCaseError::fail(sig.clone()))
+        }
+    });
+    let s = st.into_inner();
+    let mut failure = serde_json::Value::Null;
+    if let Err(TestError::Fail(reason, c)) = &res {
+        let fails = flushrace::run(c).unwrap_or_default();
+        failure = json!({"signature": reason.to_string(), "program": c, "violations": fails.iter().map(|f| json!({"sig": sig, "msg": f})).collect::<Vec<_>>()});
+    }
+    let mut nt: Vec<u64> = s.1.iter().cloned().collect();
+    nt.sort();
+    let res = json!({
+        "property": "C01", "variant": "flushrace", "cancelable": false, "seed": seed, "worker": wid,
+        "evaluations": s.0, "nontrivial_hashes": nt.iter().map(|h| format!("{:016x}", h)).collect::<Vec<_>>(),
+        "labels": {"overlapping_flush_case": s.0, "overlap_setup_failed": s.4}, "excluded": {}, "known_hits": {}, "samples": s.2,
+        "records_delivered": 0, "ops_executed": 0, "ops_skipped": 0, "failure": failure,
+        "rule": "overlapping flush() calls: the reporter parks the first flush's cycle inside report(); meanwhile 1-3 threads finish generated spans (roots, handed-off children, local scopes) and call flush(); the gate opens a generated delay after they entered; oracle: everything a thread finished before its flush() call is reported when that call returns; every case is non-trivial (the overlap is constructed); distinct = hash of the case",
+        "wall_s": start.elapsed().as_secs_f64(),
+    });
+    std::fs::File::create(out).unwrap().write_all(serde_json::to_string(&res).unwrap().as_bytes()).unwrap();
+    0
+}
+
 fn teardown_worker(args: &[String], seed: u64, wid: u64, cases: u32, out: &str, known: &[String]) -> i32 {
     let _ = args;
     quiet_panics();
@@ -238,6 +297,21 @@ fn replay(args: &[String]) -> i32 {
     let file = arg(args, "--file").expect("--file");
     let txt = std::fs::read_to_string(file).expect("read replay");
     let v: serde_json::Value = serde_json::from_str(&txt).expect("json");
+    if v["variant"].as_str() == Some("flushrace") {
+        quiet_panics();
+        flushrace::install();
+        let c: flushrace::FrCase = serde_json::from_value(v["program"].clone()).expect("flushrace case");
+        // schedule-dependent towards missing only: try a few times
+        let mut fails = vec![];
+        for _ in 0..5 {
+            fails = flushrace::run(&c).unwrap_or_default();
+            if !fails.is_empty() {
+                break;
+            }
+        }
+        println!("{}", serde_json::to_string_pretty(&json!({"violations": fails.iter().map(|f| json!({"sig": "flush-overlap:not-delivered-by-flush", "msg": f})).collect::<Vec<_>>(), "narrative": []})).unwrap());
+        return if fails.is_empty() { 0 } else { 1 };
+    }
     if v["variant"].as_str() == Some("teardown") {
         quiet_panics();
         exec::ensure_reporter_api(false);
